@@ -1,4 +1,5 @@
 import Panacea.Lemmas.DidHist
+import Panacea.Model.Genesis
 /-!
 # C05 — A DID is created at most once and deactivation is permanent
 -/
@@ -83,5 +84,53 @@ theorem update_never_deactivates (da : Bytes → Option Bytes) (cr : Crypto) (s 
 /-! ## Non-vacuity: a tombstone state -/
 def tomb : State := [([1], { doc := some emptyDoc, seq := 3, docBytes := [] })]
 example : Dead tomb [1] := ⟨_, emptyDoc, rfl, rfl, by decide, by decide⟩
+
+
+/-! ## Genesis: the one place where a sequence number is an input
+
+`deactivate_makes_tombstone` needs `seq + 1 < 2^64`.  On a running chain sequences only grow by one per accepted
+message; the genesis file is the only way to *set* one.  After the repair of F21 genesis validation refuses the
+largest `uint64`, so on a chain started from a validated genesis a deactivation always leaves a tombstone. -/
+
+theorem get_foldl_set (l : List (Bytes × DocWithSeq)) : ∀ (m0 : State) (k : Bytes) (v : DocWithSeq),
+    (l.foldl (fun m e => Map.set m e.1 e.2) m0).get k = some v → (k, v) ∈ l ∨ m0.get k = some v := by
+  induction l with
+  | nil => intro m0 k v h; exact Or.inr h
+  | cons e l ih =>
+    intro m0 k v h
+    rcases ih _ k v h with h1 | h1
+    · exact Or.inl (List.mem_cons_of_mem _ h1)
+    · by_cases hk : k = e.1
+      · subst hk
+        rw [Map.get_set_eq] at h1
+        cases h1
+        exact Or.inl (by simp)
+      · rw [Map.get_set_ne _ _ _ _ hk] at h1
+        exact Or.inr h1
+
+/-- every sequence of a state imported from a validated genesis is below the largest `uint64` -/
+theorem genesis_seq_bound (g : List (Bytes × DocWithSeq)) (hv : Genesis.didGenesisValid g = true) (did : Bytes) :
+    seqOf (Genesis.didImport g) did + 1 < 2 ^ 64 := by
+  unfold seqOf getDoc
+  cases hg : (Genesis.didImport g).get did with
+  | none => simp
+  | some d =>
+    rcases get_foldl_set g [] did d hg with h | h
+    · unfold Genesis.didGenesisValid at hv
+      have := (List.all_eq_true.mp hv) (did, d) h
+      simp only [Bool.and_eq_true, decide_eq_true_eq] at this
+      simp only [Option.getD_some]
+      omega
+    · simp [Map.get] at h
+
+/-- **Deactivation on a chain started from a validated genesis leaves a tombstone**, for every entry of that genesis
+— including the ones whose sequence the genesis file chose. -/
+theorem genesis_deactivate_makes_tombstone (da : Bytes → Option Bytes) (cr : Crypto)
+    (g : List (Bytes × DocWithSeq)) (hv : Genesis.didGenesisValid g = true) (s' : State) (did vmID sig fr : Bytes)
+    (h : deliver da cr (Genesis.didImport g) (.deactivate did vmID sig fr) = .ok s') : Dead s' did :=
+  deactivate_makes_tombstone da cr _ s' did vmID sig fr (genesis_seq_bound g hv did) h
+
+/-- the excluded point is real: without the bound the successor of the largest sequence is the initial one -/
+example : nextSeq 18446744073709551615 = 0 := by decide
 
 end Panacea.C05
